@@ -43,7 +43,7 @@ def op_term(o):
         "scall": ("OSCall", "NNB"), "sblock": ("OSBlock", "NB"), "sdisc": ("OSDisc", "N"), "sdel": ("OSDel", "N"), "sq": ("OSQuery", "N"),
         "gcopy": ("OGCopy", "NN"), "gmove": ("OGMove", "NN"), "gasg": ("OGAssign", "NN"), "gmasg": ("OGMoveAssign", "NN"), "gdel": ("OGDel", "N"), "gshare": ("OGShare", "N"), "grel": ("OGRelease", "N"),
         "gemit": ("OGEmit", "NNB"), "gclear": ("OGClear", "N"), "gblock": ("OGBlock", "NB"), "gq": ("OGQuery", "N"), "gmk": ("OGMakeSlot", "NN"),
-        "cempty": ("OCEmpty", "N"), "ccopy": ("OCCopy", "NN"), "casg": ("OCAssign", "NN"), "cmove": ("OCCopy", "NN"), "cmasg": ("OCAssign", "NN"), "knewm": ("OKNew", "NN"), "kasgm": ("OKAssign", "NN"), "cdisc": ("OCDisc", "N"), "cblock": ("OCBlock", "NB"),
+        "cempty": ("OCEmpty", "N"), "ccopy": ("OCCopy", "NN"), "casg": ("OCAssign", "NN"), "cmove": ("OCCopy", "NN"), "cmasg": ("OCAssign", "NN"), "knewm": ("OKNew", "NN"), "kasgm": ("OKAssign", "NN"), "cdisc": ("OCDisc", "N"), "cshare": ("OCShare", "N"), "crel": ("OCRelease", "N"), "cblock": ("OCBlock", "NB"),
         "cdel": ("OCDel", "N"), "cq": ("OCQuery", "N"),
         "knew": ("OKNew", "NN"), "kempty": ("OKEmpty", "N"), "kasg": ("OKAssign", "NN"), "kmove": ("OKMove", "NN"), "kmasg": ("OKMoveAssign", "NN"),
         "kswap": ("OKSwap", "NN"), "krel": ("OKRelease", "NN"), "kdisc": ("OKDisc", "N"), "kblock": ("OKBlock", "NB"), "kdel": ("OKDel", "N"), "kq": ("OKQuery", "N"),
